@@ -1,4 +1,4 @@
-CONSTANT Families = {"boundary", "sweep", "reject", "mismatch", "run2d"}
+CONSTANT Families = {"boundary", "sweep", "reject", "mismatch", "run2d", "long"}
 INIT Init
 NEXT Next
 INVARIANT C06_RoundTrip
@@ -7,4 +7,9 @@ INVARIANT C06_RejectedNeverWrapped
 INVARIANT C06_ConvIndependent
 INVARIANT C06_Run2dString
 INVARIANT C06_UnpackOfExpected
+INVARIANT C06_PositionIndependent
+INVARIANT C06_LongSeed
+INVARIANT C06_LongRejected
+INVARIANT C06_IntFormIndependent
+INVARIANT C06_FormsFit
 CHECK_DEADLOCK FALSE
